@@ -78,7 +78,8 @@ func genUnknown(t *rapid.T, o *Opts) {
 		o.HasUnknown, o.Unknown = true, uni.Str("")
 	case 1:
 		p := uni.Profile{Depth: 0}
-		o.HasUnknown, o.Unknown = true, uni.GenScalar(t, &uni.Type{K: uni.ScalarKinds[rapid.IntRange(0, len(uni.ScalarKinds)-1).Draw(t, "uk")]}, p)
+		kinds := append(append([]uni.Kind{}, uni.ScalarKinds...), uni.KJSONNum, uni.KJSONNum)
+		o.HasUnknown, o.Unknown = true, uni.GenScalar(t, &uni.Type{K: kinds[rapid.IntRange(0, len(kinds)-1).Draw(t, "uk")]}, p)
 	}
 }
 
